@@ -129,6 +129,16 @@ def roundtrip(res, code, items, payload):
     if t[1] not in ALLOWED_OUTER_CODES or not nums <= ALLOWED_OUTER:
         res.violate(Violation("outer-message-shape", {"codes": sorted(ALLOWED_OUTER_CODES), "options": sorted(ALLOWED_OUTER)},
                               {"code": t[1], "options": sorted(nums)}, "oscore.py:_split_message", case, key="outer:%s" % sorted(nums - ALLOWED_OUTER)))
+    # RFC 8613 section 4.2: the outer code depends on Observe alone (POST / 2.04, or FETCH / 2.05 for observations) - it must not tell
+    # one inner code from another
+    want_outer = None
+    if is_req:
+        want_outer = 5 if m.opt.observe is not None else 2
+    elif m.opt.observe is None:
+        want_outer = 68
+    if want_outer is not None and t[1] != want_outer:
+        res.violate(Violation("outer-code-depends-on-inner-message", {"outer code": want_outer}, {"outer code": t[1], "inner code": int(code)},
+                              "oscore.py:_split_message", case, key="outer-code:%d" % t[1]))
     if MARK in data:
         res.violate(Violation("inner-data-visible", "no inner marker in the outer datagram", data.hex(), "oscore.py:_split_message", case,
                               key="leak:" + ",".join(sorted(set(names)))))
